@@ -18,6 +18,7 @@ import (
 	"net/http"
 	"os"
 	"strings"
+	"sync"
 	"time"
 
 	"git.torproject.org/pluggable-transports/snowflake.git/v2/common/messages"
@@ -50,9 +51,12 @@ func makePeerConnectionFromOffer(sdp *webrtc.SessionDescription,
 	if err != nil {
 		return nil, fmt.Errorf("accept: NewPeerConnection: %s", err)
 	}
+	// The prober decides how many data channels it opens: dataChan is
+	// closed when the first of them opens, and only then.
+	var opened sync.Once
 	pc.OnDataChannel(func(dc *webrtc.DataChannel) {
 		dc.OnOpen(func() {
-			close(dataChan)
+			opened.Do(func() { close(dataChan) })
 		})
 		dc.OnClose(func() {
 			dc.Close()
